@@ -421,7 +421,7 @@ def native_replay(ctx, h, case, root, tape, tag):
     src = os.path.join(root, "vf_harness", h["src"])
     units = [os.path.join(root, u) for u in h.get("units", [])]
     if not os.path.exists(exe):
-        base = ["gcc", "-O1", "-g", "-w", "-fsanitize=address,undefined", "-fno-sanitize-recover=undefined",
+        base = ["gcc", "-O1", "-g", "-w", "-fsanitize=address,undefined", "-fno-sanitize=shift-base,signed-integer-overflow", "-fno-sanitize-recover=undefined",
                 "-DMATRIXSSL_VERIF", "-DVF_NATIVE"] + def_flags(defs) + inc_flags(root) + h.get("cflags", [])
         stubs = os.path.join(wd, "undef_stubs.c")
         missing = set()
@@ -521,6 +521,7 @@ def main():
         samples = []
         per_case = []
         machinery = []
+        ub_notes = []
         undecided = []
         solver_s = 0.0
         for h, c, r in results:
@@ -611,6 +612,18 @@ def main():
                          "native run did not reproduce (labels=%s sanitizer=%s rc=%s)" % (rp.get("labels"), rp.get("sanitizer"), rp.get("rc")))
                     if k and k.get("unit_level_unreplayable"):
                         known_hits.append((k["what"], cname, label))
+                    elif p["kind"] == "builtin" and rp.get("built") and not rp.get("assume_failed") and \
+                            any(re.search(rx, "%s %s %s" % (p["property"], p["description"], p.get("where", "")))
+                                for rx in h.get("tolerate_unconfirmed", [])):
+                        # a CBMC modelling artefact the spec documents (with
+                        # its reason); it did not reproduce natively
+                        ub_notes.append("%s: tolerated model artefact %s at %s" % (cname, p["description"], p.get("where", "?")))
+                    elif p["kind"] == "builtin" and rp.get("built") and not rp.get("assume_failed") and \
+                            p["description"].startswith(("pointer relation:", "pointer arithmetic:")):
+                        # forming / comparing an out-of-bounds pointer without
+                        # dereferencing it: standard-level UB that no sanitizer
+                        # confirms - reported separately, never as a violation
+                        ub_notes.append("%s: %s at %s" % (cname, p["description"], p.get("where", "?")))
                     else:
                         machinery.append("%s: UNCONFIRMED counterexample for %s (%s): %s" % (cname, label, p.get("fail_at", p.get("where", "")), why))
             pc["failed"] = [(p["description"] or p["property"]) for p in case_fail]
@@ -634,6 +647,8 @@ def main():
             exit_code = 3
         for m in machinery:
             lines.append("MACHINERY: " + m)
+        for u in sorted(set(ub_notes))[:20]:
+            lines.append("NOTE unconfirmable pointer-formation UB (not a violation): " + u)
         for u in undecided:
             lines.append("INCONCLUSIVE property=%s %s" % (prop, u))
         wall = time.time() - t0
@@ -662,6 +677,7 @@ def main():
                     "source_sha256": {f: vderive.sha256_file(os.path.join(REPO, f)) for f in sorted({u for h, _ in harnesses for u in h.get("sources", [])}) if os.path.exists(os.path.join(REPO, f))},
                     "known_findings_matched": sorted(printed),
                     "undecided": undecided, "machinery_failures": machinery,
+                    "unconfirmable_pointer_ub_notes": sorted(set(ub_notes)),
                 },
                 "assumptions": meta.get("assumptions", []) + sorted({s for h, _ in harnesses for s in h.get("assumptions", [])}),
                 "wall_s": round(wall, 1),
